@@ -16,7 +16,7 @@ import (
 var c10 = core.Register(&core.Prop{
 	ID:    "C10",
 	Title: "Referenced-field analysis is exact and sufficient",
-	Rule: "grammar-directed formulas over identifiers, dotted paths of depth 1-4 (with '.' and '!.'), calls (callee a name or a path, spread arguments), assignments, conditionals, arrays, typeof, prefix operators and parentheses, every node kind nested in every other; " +
+	Rule: "grammar-directed formulas over identifiers, dotted paths of depth 1-4 (with '.' and '!.') and long paths of 5-300 segments, calls (callee a name or a path, spread arguments), assignments, conditionals, arrays, typeof, prefix operators and parentheses, every node kind nested in every other; " +
 		"expected sets computed from an independently parsed reference tree; sufficiency by evaluating against the full data map and against the map restricted to the reported top-level names plus callee names; " +
 		"non-trivial = at least two distinct reads or a path or a call; distinct by formula (and data for sufficiency)",
 	Assumptions: []string{
@@ -350,6 +350,30 @@ func runC10(w *core.W) {
 			c10Fields(w, &FieldCase{Src: "(" + sum + ") / (" + tail + ")"})
 			c10Fields(w, &FieldCase{Src: "[" + strings.Join(parts, ", ") + ", " + tail + "]"})
 			w.Count("many_names_cases")
+		}
+	}
+	// 3c. long dotted paths (segment counts around the powers of two, with '.' and '!.'): the entry is the whole path
+	for zi, n := range []int{5, 7, 8, 9, 10, 15, 16, 17, 31, 32, 33, 40, 64, 65, 129, 300} {
+		if !w.Mine(zi) {
+			continue
+		}
+		for variant := 0; variant < 3; variant++ {
+			var sb strings.Builder
+			for k := 0; k < n; k++ {
+				if k > 0 {
+					if variant == 1 && k%3 == 0 || variant == 2 {
+						sb.WriteString("!.")
+					} else {
+						sb.WriteString(".")
+					}
+				}
+				fmt.Fprintf(&sb, "s%d", k)
+			}
+			path := sb.String()
+			for _, t := range []string{"%p", "%p + 1", "f(%p, s0)", "[%p, %p]", "%p.f(x) + %p", "%p ?? s0.s1", "-%p"} {
+				c10Fields(w, &FieldCase{Src: strings.ReplaceAll(t, "%p", path)})
+				w.Count("long_path_cases")
+			}
 		}
 	}
 	// 4. repeated mentions: names and paths that differ only in letter case, in a prefix, or not at all, in every order
